@@ -244,6 +244,15 @@ pub fn run() -> SimResult {
                     new_value(cfg)
                 }
             };
+            // before a container mutation, often take a clone of the whole value first: the clone shares
+            // storage with it (arena or Arc), and must not see the mutation
+            if op < 38 && pool.len() < 6 && chance(1, 5) {
+                let c = libcall("clone before mutation", || pool[hi].v.clone())?;
+                trace::bump(C::dom_clones);
+                tr!("{} clone of #{} kept as #{}", what, hi, pool.len());
+                let m = pool[hi].m.clone();
+                pool.push(Slot { v: c, m });
+            }
             match op {
                 // ------------------------------------------------------------ array operations
                 0..=19 => {
